@@ -167,7 +167,7 @@ impl<'a> GGen<'a> {
     /// expressions that consume at least one character whenever they succeed, and can fail
     fn progressing(&mut self, d: usize, leftmost: bool) -> Expr {
         if d == 0 { return self.consuming(); }
-        match self.rng.below(12) {
+        match self.rng.below(13) {
             0..=2 => self.consuming(),
             3 | 4 => { let a = self.progressing(d - 1, leftmost); let b = self.any(d - 1, false); Expr::Seq(bx(a), bx(b)) }
             5 => { let a = self.progressing(d - 1, leftmost); let b = self.progressing(d - 1, leftmost); Expr::Choice(bx(a), bx(b)) }
@@ -176,6 +176,13 @@ impl<'a> GGen<'a> {
             8 => { let a = self.progressing(d - 1, leftmost); Expr::RepExact(bx(a), self.rng.range(1, 3) as u32) }
             9 if self.cfg.stack_ops => { let a = self.progressing(d - 1, leftmost); Expr::Push(bx(a)) }
             10 => { let a = self.any(d - 1, leftmost); let b = self.progressing(d - 1, leftmost); Expr::Seq(bx(Expr::NegPred(bx(a))), bx(b)) }
+            // the keyword-exclusion idiom and its relatives: a predicate over a rule reference (possibly nested in
+            // another predicate) in front of something that consumes — rules that match or fail under look-ahead
+            11 => match self.rule_ref(leftmost) {
+                Some(r) => { let b = self.progressing(d - 1, leftmost);
+                    let p = match self.rng.below(5) { 0 | 1 => Expr::NegPred(bx(r)), 2 => Expr::PosPred(bx(r)), 3 => Expr::NegPred(bx(Expr::PosPred(bx(r)))), _ => Expr::NegPred(bx(Expr::NegPred(bx(r)))) };
+                    Expr::Seq(bx(p), bx(b)) }
+                None => { let a = self.progressing(d - 1, leftmost); let b = self.any(d - 1, false); Expr::Seq(bx(a), bx(b)) } },
             _ => { let a = self.progressing(d - 1, leftmost); let b = self.any(d - 1, false); Expr::Seq(bx(a), bx(b)) }
         }
     }
